@@ -65,5 +65,54 @@ __CPROVER_ensures(*go_on == HEAD_OK_(self))
 __CPROVER_ensures(!*go_on ==> (!__CPROVER_return_value && g_errors == 1))
 __CPROVER_ensures(*go_on ==> g_errors == 0);
 void h_valid_head(void) { const struct CatalogFragmentM *f; _Bool *g; g_errors = 0; CatalogFragment_valid_head(f, g); }
+/* ---- CatalogFragment::valid, the entry loop: the files must not overlap and (all but the first non-empty one, see below) must end
+   inside the volume.  Entries are listed from the end of the disc towards its start; empty files occupy nothing and are
+   skipped.  Specification tables built by the harness over the 31 entry slots:
+     h_lastne[k]  index of the last non-empty entry among 1..k (0: none)
+     h_okupto[k]  every non-empty entry j <= k that has a non-empty predecessor p = h_lastne[j-1] satisfies
+                  last(j) < total sectors  and  last(j) < start(p)
+   valid's loop accepts exactly when h_okupto holds for the whole list.  Taken from the code, not from a property: the FIRST
+   non-empty entry is not compared with the volume's size (observation recorded in DESIGN.md). ---- */
+struct EntryM { unsigned long len; sector_count_type start, last; };
+struct opt_sc_ { _Bool has; sector_count_type val; };
+static struct EntryM h_ent[32];
+static unsigned char h_lastne[32];
+static _Bool h_okupto[32];
+static sector_count_type h_total;
+static void h_fill_valid_tables(void)
+{
+  unsigned k;
+  h_lastne[0] = 0; h_okupto[0] = 1;
+  for (k = 1; k < 32; ++k)
+    {
+      const unsigned p = h_lastne[k - 1];
+      const _Bool nonempty = h_ent[k].len != 0;
+      h_okupto[k] = h_okupto[k - 1] && (!(nonempty && p != 0) || (h_ent[k].last < h_total && h_ent[k].last < h_ent[p].start));
+      h_lastne[k] = nonempty ? (unsigned char)k : (unsigned char)p;
+    }
+}
+static const struct EntryM *get_entry_model(unsigned pos)
+{
+  __CPROVER_assert(pos % 8 == 0 && pos >= 8 && pos <= 31 * 8, "C07: get_entry_at_offset is asked for an entry inside the catalogue sector");
+  return &h_ent[(pos / 8) & 31];
+}
+#define VALID_LOOP_CONTRACT \
+  __CPROVER_assigns(pos, last_file_start) \
+  __CPROVER_loop_invariant(pos % 8 == 0 && pos >= 8 && pos <= last + 8 && g_errors == 0 && h_okupto[(pos / 8 - 1) & 31]) \
+  __CPROVER_loop_invariant(last_file_start.has == (h_lastne[(pos / 8 - 1) & 31] != 0) && (last_file_start.has ==> last_file_start.val == h_ent[h_lastne[(pos / 8 - 1) & 31] & 31].start)) \
+  __CPROVER_decreases(last + 8 - pos)
+#include "CatalogFragment_valid_loop.inc"
+static bool CatalogFragment_valid_loop(const struct CatalogFragmentM *self, unsigned short last)
+__CPROVER_requires(__CPROVER_is_fresh(self, sizeof(*self)) && last % 8 == 0 && last <= 31 * 8 && g_errors == 0 && self->total_sectors_ == h_total)
+__CPROVER_requires(h_lastne[0] == 0 && h_okupto[0])                 /* the tables were filled by the harness */
+__CPROVER_assigns(g_errors)
+__CPROVER_ensures(__CPROVER_return_value == h_okupto[(last / 8) & 31])
+__CPROVER_ensures(g_errors == (__CPROVER_return_value ? 0 : 1));
+void h_valid_loop(void)
+{
+  const struct CatalogFragmentM *f;
+  g_errors = 0; h_fill_valid_tables();
+  CatalogFragment_valid_loop(f, (unsigned short)nondet_uint());
+}
 void h_title(void) { const SectorBuffer *a, *b; g_k = nondet_size_t(); __CPROVER_assume(g_k < 12); convert_title(a, b); }
 void h_fragment(void) { struct CatalogFragmentM *f; const SectorBuffer *a, *b; CatalogFragment_ctor(f, a, b); }
